@@ -77,6 +77,9 @@ func Start() *Run {
 	return r
 }
 
+// Variant returns the build variant the driver built this binary with (plain, race, vfs, vsync, vsyncrace).
+func (r *Run) Variant() string { return os.Getenv("VERIF_VARIANT") }
+
 // N returns the case count for the tier, scaled by VERIF_SCALE (at least 1).
 func (r *Run) N(quick, thorough int) int {
 	n := quick
